@@ -313,6 +313,13 @@ def run(ctx):
         h = "".join(rng.choice(alphabet) for _ in range(rng.randint(0, 12)))
         add("unhexify", "unhexify %s" % cstr(h), run_impl(byting.unhexify, h), {"h": h}, "unhexify")
         add("unhexize", "unhexize %s" % cstr(h), run_impl(byting.unhexize, h), {"h": h}, "unhexize")
+    # hex text with separators / prefixes (unhexify's documented domain: non-hex characters are stripped)
+    shapes = ["", ":", "0", "0:", ":0", "0x", "1:2", "0x1f", "01:02", "de ad be ef", "DE-AD", "a\nb", "0xg1"]
+    for b in ([0], [1, 2], [0xde, 0xad, 0xbe]):
+        shapes += stmt.hex_texts(b)
+    for h in shapes:
+        add("unhexify", "unhexify %s" % cstr(h), run_impl(byting.unhexify, h), {"h": h}, "unhexify")
+        add("unhexize", "unhexize %s" % cstr(h), run_impl(byting.unhexize, h), {"h": h}, "unhexize")
     # ---- signExtend -----------------------------------------------------------------------
     for n in range(-1, 8):
         for x in range(0, 2 ** max(n, 0) + 2):
